@@ -279,6 +279,22 @@ PROPS.update({
  ),
 })
 
+PROPS['C01'] = dict(
+    oracle='C01',
+    lean_modules=['ClockBound.Properties.C01'],
+    gens=lambda seed, th: [['worldgen', seed, 30000 if th else 1200]],
+    relevant=lambda c: kind(c) == 'world',
+    nontrivial=lambda c: 'trusted' in c.tags and 'tight' in c.tags,
+    shrink=True,
+    rule="seeded worlds: piecewise-linear realtime and monotonic clocks (1-5 segments, rate errors up to exactly the configured drift budget, both signs), realtime offset up to +-50 ms; histories of 3-40 events: polls (as-of read, reply after 0..2.5 s, handled after 0..1 ms) with reports made valid by construction (tight in half of the cases: offset word = true offset, dispersion = rounding remainder), both offset signs, leap 3 / unknown / stale / future reports, silences with either grace flag, daemon restarts over the same segment, PHC terms; client queries just after a publication, at 5 s -1/0/+1 ns, tens of seconds, ~1000 s and beyond void-after, with 0..3 s between the realtime and the monotonic read. The real ShmUpdater, ShmWriter, ShmReader and ClockBoundClient run under interposed clocks; the Lean driver recomputes the clocks exactly, CHECKS the hypotheses of C01 on the generated history (cases violating them are `na`), and evaluates containment on the implementation's intervals. non-trivial = a trusted status is returned while true time lies in the outer 10% of the interval (tags trusted+tight)",
+    trusted_base=DAEMON_TB + CLIENT_TB + ["true time and ideal clocks are mathematical objects: readings are floors of the ideal clocks; CLOCK_MONOTONIC_COARSE tick lag, slewing faster than the configured rate, reboot and SIGBUS are outside the model",
+                  "the seqlock is represented by 'any record published before the query' (C02/C03 justify it); the e2e harness runs sequentially"],
+    technique='Lean 4 proof: provenance invariant over all histories incl. restarts (from C07-C09) + rational containment inequality (drift transport, floor readings, f64 error budget) + virtual-time end-to-end differential run of the real daemon/segment/client pipeline with hypotheses checked by the driver',
+    level_text='Theorem C01.containment: for every world whose clocks satisfy Good (monotone monotonic clock, drift bounded by the configured rate), every history of polls/outages/restarts whose synchronised reports are valid, every record that history ever published (so also a stale snapshot) and every later client query with a Synchronized or FreeRunning status, true time at the realtime read lies in (earliest - sigma, latest + sigma) with sigma = 2 + rho/1e9 + 2^-10 ns; provenance shows every non-Unknown record carries bound/as-of of one valid synchronised report; exampleWorld_good is the non-vacuity witness. ~1200 generated histories per run are executed on the real code and compared record by record and interval by interval.',
+    level_note='Partial: coarse-clock tick lag, slewing faster than rho, reboot (monotonic epoch change) and SIGBUS are outside the model; sigma makes the 1 ns resolution of the representation and the double-precision evaluation error explicit.',
+    assumptions=["chronyd's report is valid at the instant of its answer: |Rc(tq) - tq| <= |offset| + dispersion + delay/2 (+PHC bound)", "E + phc < 10^12 ns (1000 s) and readings within +-2^31 s"],
+)
+
 # properties whose theorem files are still being proved are not claimed yet
-for _p in ('C12', 'C02', 'C03', 'C18'):
+for _p in ('C02', 'C03'):
     PROPS[_p]['claimed'] = False
